@@ -144,7 +144,7 @@ def gen_case(seed, tier):
         tagn[0] += 1
         hops = hops or rng.sample(OPS, rng.randint(1, 2))
         return {'op': 'register', 'reg': reg or rng.choice(regs_avail), 'type': tname or rng.choice(regable),
-                'handlers': {o: f'h{tagn[0]}{o[0]}' for o in hops},
+                'handlers': {o: ('False' if rng.random() < 0.12 else f'h{tagn[0]}{o[0]}') for o in hops},
                 'exact': (rng.random() < 0.25) if exact is None else exact}
 
     def lookup(reg=None, cls=None, lop=None):
@@ -152,7 +152,7 @@ def gen_case(seed, tier):
                 'lop': lop or rng.choice(OPS)}
     template = rng.random() < 0.4
     if template:
-        t = rng.choice(['mixin-order', 'structural-sibling', 'exact-then-sub', 'reregister', 'builtin-sub'])
+        t = rng.choice(['mixin-order', 'structural-sibling', 'exact-then-sub', 'reregister', 'builtin-sub', 'switched-off'])
         reg = rng.choice(['default', 'g0', 'b0'])
         if t == 'mixin-order' and 'D2' in names:
             base = [c for c in fam['classes'] if c['name'] == 'D'][0]['bases'][0]
@@ -182,6 +182,18 @@ def gen_case(seed, tier):
             ops.append(lookup(reg, tn, 'get'))
             ops.append(reg_op(tn, reg, exact=rng.random() < 0.5, hops=['get']))
             ops.append(lookup(reg, tn, 'get'))
+        elif t == 'switched-off':
+            # an operation switched off with False stays off when the type is registered again for
+            # another operation (only an explicit handler replaces an earlier one)
+            tn = rng.choice(names)
+            off = rng.choice(OPS)
+            ops.append(reg_op(tn, reg, exact=False, hops=[off]))
+            ops[-1]['handlers'][off] = 'False'
+            other = rng.choice([o for o in OPS if o != off])
+            ops.append(reg_op(tn, reg, exact=rng.random() < 0.3, hops=[other]))
+            subs = [c['name'] for c in fam['classes'] if tn in c['bases']] or [tn]
+            ops.append(lookup(reg, tn, off))
+            ops.append(lookup(reg, rng.choice(subs), off))
         else:
             subs = [n_ for n_ in names if n_.startswith(('My', 'Slot'))]
             if subs:
@@ -251,6 +263,8 @@ class World:
         self.models[gid] = self._model(defaults=defaults, with_ext=True)
 
     def handler(self, op, tag):
+        if tag == 'False':
+            return False        # "this type (and, unless exact, its subclasses) does not support op"
         key = (op, tag)
         if key in self.handlers:
             return self.handlers[key]
